@@ -1,23 +1,39 @@
-(* C17 — no operation allocates (apart from to_vec; boxed() is not in the
-   operation language of the model): the capacity, hence the inline storage,
-   never changes, and the only allocation event any returning call emits is the
-   single one of to_vec on a non-empty buffer. What decides the property on the
+(* C17 — no operation allocates, apart from to_vec and boxed: the capacity,
+   hence the inline storage, never changes, and the only allocation events any
+   returning call emits are the single one of to_vec on a non-empty buffer and
+   the single one of boxed() (its Box). What decides the property on the
    real code is the allocation-counting correspondence and the no_std / alloc
    builds (see evidence); these theorems fix what the model predicts.
    This file only pins statements; proofs are in coq/proofs/. *)
 From CB Require Import Spec Unstable.
 From Coq Require Import Permutation.
 From CBP Require Import Step RefDefs C02Lemmas Arith AbsLemmas AllOps FaultDefs FaultPrims FaultDropA FaultDropB FaultUser
-     Iters DrainP ExtendIo CmpHash Ctors PhysMoves UnstableEq Access Views RefTruncate FillExtend FaultFrame SpecCorollaries.
+     Iters DrainP ExtendIo CmpHash Ctors PhysMoves MoreOps UnstableEq Access Views RefTruncate FillExtend FaultFrame SpecCorollaries.
 
 
 Theorem C17_no_alloc :
   forall o s w v s' w',
   WF s -> fault w = None -> op_ok s o ->
   exec o s w = (Ok v, s', w') ->
-  exists evs, log w' = log w ++ evs /\ (o <> OToVec -> ~ In EvAlloc evs) /\ cap s' = cap s.
+  exists evs, log w' = log w ++ evs /\
+    (o <> OToVec -> o <> OBoxed -> ~ In EvAlloc evs) /\ cap s' = cap s.
 Proof. exact (exec_allocs). Qed.
 Print Assumptions C17_no_alloc.
+
+Theorem C17_alloc_only :
+  forall N l o nid r,
+  spec_step N l o nid = SRet r -> In EvAlloc (sr_evs r) -> o = OToVec \/ o = OBoxed.
+Proof. exact (spec_alloc_only_to_vec). Qed.
+Print Assumptions C17_alloc_only.
+
+Theorem C17_boxed_allocs_once :
+  forall s w v s' w',
+  WF s -> fault w = None ->
+  exec OBoxed s w = (Ok v, s', w') ->
+  exists evs, log w' = log w ++ evs /\
+    evs = EvAlloc :: drops (abs s) /\ count_occ event_eq_dec evs EvAlloc = 1%nat.
+Proof. exact (exec_boxed_allocs). Qed.
+Print Assumptions C17_boxed_allocs_once.
 
 Theorem C17_to_vec_allocs_once :
   forall s w v s' w',
